@@ -439,7 +439,8 @@ def ref_value(fd, data, space, dY, z):
     raise HarnessError('no reference value for {!r}'.format(kind))
 
 
-def certificate(fd, space, dY, z, rng, zero_cert=False, zero_tol=0.0):
+def certificate(fd, space, dY, z, rng, zero_cert=False, zero_tol=0.0,
+                max_active=None):
     """Choose the data of the functional and a dual certificate
     ``y in subdiff g(z)`` (Riesz representative, flat).
 
@@ -502,6 +503,12 @@ def certificate(fd, space, dY, z, rng, zero_cert=False, zero_tol=0.0):
     if kind == 'box':
         # 0: strictly inside, 1: lower bound active, 2: upper bound active
         pat = rng.randint(0, 3, n)
+        if max_active is not None:
+            act = np.flatnonzero(pat)
+            if len(act) > max(max_active, 0):
+                drop = rng.choice(act, size=len(act) - max(max_active, 0),
+                                  replace=False)
+                pat[drop] = 0
         if fd.get('scalar_bounds'):
             # scalar bounds: the extreme entries may be active
             lo = np.full(n, z.min() - (0.0 if pat[0] == 1 else 0.5))
@@ -674,7 +681,10 @@ def build_nonsmooth(pd):
         z = np.where(np.abs(z) <= zt, 0.0, z)
         T.data, T.ystar, T.active = certificate(
             t['g'], lin.op.range, lin.dY, z, rng, zero_cert=zero_cert,
-            zero_tol=0.0)
+            zero_tol=0.0, max_active=budget)
+        if t['g']['kind'] == 'box':
+            budget -= int(np.count_nonzero(T.ystar)) if not zero_cert \
+                else 0
         T.g = make_functional(t['g'], lin.op.range, T.data)
         c += lin.adj @ T.ystar
         P.terms.append(T)
@@ -682,7 +692,8 @@ def build_nonsmooth(pd):
     P.xstar = xstar = xz
     P.phi_fd = phi_fd
     P.phi_data, P.sstar, P.phi_active = certificate(
-        phi_fd, X, dX, xstar, rng, zero_cert=False, zero_tol=0.0)
+        phi_fd, X, dX, xstar, rng, zero_cert=False, zero_tol=0.0,
+        max_active=budget)
     P.phi = make_functional(phi_fd, X, P.phi_data)
     c += P.sstar
 
